@@ -478,12 +478,19 @@ def model_based_encoder_loss(
         pred_reward_t = two_hot_decoding(
             the_bins, jax.nn.softmax(pred_reward_logits_t)
         )
+        # masked_mse_loss expects (n_samples, n_features) arrays
         reward_mse = masked_mse_loss(
-            pred_reward_t, target_reward_t, prev_not_done
+            pred_reward_t[:, jnp.newaxis],
+            target_reward_t[:, jnp.newaxis],
+            prev_not_done,
         )
         done_loss = jnp.where(
             environment_terminates,
-            masked_mse_loss(pred_done_t, target_done_t, prev_not_done),
+            masked_mse_loss(
+                pred_done_t[:, jnp.newaxis],
+                target_done_t[:, jnp.newaxis],
+                prev_not_done,
+            ),
             0.0,
         )
 
